@@ -5,6 +5,7 @@ import (
 	"go/ast"
 	"go/token"
 	"go/types"
+	"golang.org/x/tools/go/cfg"
 	"regexp"
 	"sort"
 	"strings"
@@ -284,6 +285,11 @@ func ruleR36(c *Ctx) {
 					if id, ok := ast.Unparen(l).(*ast.Ident); ok && id.Name == "depth" && x.Tok != token.DEFINE {
 						isPos = true
 					}
+					if id, ok := ast.Unparen(l).(*ast.Ident); ok && id.Name == "depth" && x.Tok == token.DEFINE && len(x.Rhs) == len(x.Lhs) {
+						if tv, has := info.Types[x.Rhs[0]]; has && tv.Value != nil {
+							out["init depth "+tv.Value.ExactString()]++
+						}
+					}
 					if through || isPos || (root != nil && m.isTreeRecv(root)) {
 						op := ""
 						if x.Tok != token.ASSIGN && x.Tok != token.DEFINE {
@@ -304,6 +310,241 @@ func ruleR36(c *Ctx) {
 		ast.Inspect(u.Body, visit)
 	}
 
+	// ---- the same outcomes under the same conditions: every outcome of the algorithm (a constant
+	// result, an unlink, a link, a size step, a value store) is labelled with the structural
+	// conditions that dominate it – emptiness of a reference, the leaf tag, the full-key comparison,
+	// position comparisons – with their polarity. Inverting a guard and swapping its branches keeps
+	// the labels; negating a condition in one copy does not.
+	refClass := func(t types.Type) string {
+		if t == nil {
+			return ""
+		}
+		if p, ok := t.Underlying().(*types.Pointer); ok {
+			t = p.Elem()
+		}
+		if n := namedOf(t); n != nil && m.NodeRef != nil && n.Obj() == m.NodeRef.Obj() {
+			return "REF"
+		}
+		return ""
+	}
+	var operand func(u *FuncUnit, e ast.Expr, depth int) string
+	operand = func(u *FuncUnit, e ast.Expr, depth int) string {
+		e = ast.Unparen(e)
+		if depth > 6 {
+			return "?"
+		}
+		if tv, ok := info.Types[e]; ok && tv.IsNil() {
+			return "nil"
+		}
+		if cl := refClass(info.TypeOf(e)); cl != "" {
+			return cl
+		}
+		switch x := e.(type) {
+		case *ast.Ident:
+			if tv, ok := info.Types[e]; ok && tv.Value != nil {
+				return x.Name
+			}
+			if d := m.resolveLocal(u, x); d != nil {
+				return operand(u, d, depth+1)
+			}
+			if t := info.TypeOf(e); t != nil {
+				if _, isPtr := t.Underlying().(*types.Pointer); isPtr {
+					return "PTR"
+				}
+			}
+			return x.Name
+		case *ast.SelectorExpr:
+			if info.Selections[x] != nil {
+				return operand(u, x.X, depth+1) + "." + x.Sel.Name
+			}
+			return x.Sel.Name
+		case *ast.StarExpr:
+			return operand(u, x.X, depth+1)
+		case *ast.CallExpr:
+			if isConversion(info, x) && len(x.Args) == 1 {
+				return operand(u, x.Args[0], depth+1)
+			}
+			return "call"
+		}
+		return "?"
+	}
+	negOp := map[token.Token]token.Token{token.EQL: token.NEQ, token.NEQ: token.EQL, token.LSS: token.GEQ, token.GEQ: token.LSS, token.GTR: token.LEQ, token.LEQ: token.GTR}
+	atomText := func(u *FuncUnit, gd guard) string {
+		if len(c.resolveEq(u, gd.atom.e, gd.atom.val, 0)) > 0 {
+			return "KEY-EQUAL"
+		}
+		if len(c.resolveEq(u, gd.atom.e, !gd.atom.val, 0)) > 0 {
+			return "KEY-DIFFERENT"
+		}
+		be, ok := ast.Unparen(m.throughLocals(u, gd.atom.e)).(*ast.BinaryExpr)
+		if !ok {
+			return ""
+		}
+		op := be.Op
+		if _, known := negOp[op]; !known {
+			return ""
+		}
+		if !gd.atom.val {
+			op = negOp[op]
+		}
+		l, r := operand(u, be.X, 0), operand(u, be.Y, 0)
+		switch {
+		case (op == token.EQL || op == token.NEQ) && (l == "nil" || r == "nil" || strings.HasSuffix(l, ".tag") || strings.HasSuffix(r, ".tag")):
+			if l == "nil" || (r != "nil" && l > r) {
+				l, r = r, l
+			}
+			return l + " " + op.String() + " " + r
+		case interesting.MatchString(types.ExprString(be.X) + " " + types.ExprString(be.Y)):
+			a, b := side(u, be.X), side(u, be.Y)
+			switch op {
+			case token.GTR:
+				return b + " < " + a
+			case token.GEQ:
+				return b + " <= " + a
+			case token.EQL, token.NEQ:
+				if a > b {
+					a, b = b, a
+				}
+			}
+			return a + " " + op.String() + " " + b
+		}
+		return ""
+	}
+	outcomes := func(tk *TreeKind, u *FuncUnit) bagT {
+		out := bagT{}
+		g := m.cfgOf(u)
+		guards := guardsOf(info, g)
+		sizeField := c.sizeField(tk)
+		label := func(b *cfg.Block) string {
+			set := map[string]bool{}
+			for _, gd := range guards {
+				if !edgeDominates(g, gd.b, gd.succ, b) {
+					continue
+				}
+				if a := atomText(u, gd); a != "" {
+					set[a] = true
+				}
+			}
+			return strings.Join(sortedKeys(set), " & ")
+		}
+		for _, b := range g.Blocks {
+			if !b.Live {
+				continue
+			}
+			for _, n := range b.Nodes {
+				ev := ""
+				switch x := n.(type) {
+				case *ast.ReturnStmt:
+					var parts []string
+					for _, r := range x.Results {
+						if tv, ok := info.Types[r]; ok && tv.Value != nil {
+							parts = append(parts, tv.Value.ExactString())
+						} else {
+							parts = append(parts, "_")
+						}
+					}
+					if len(parts) > 0 && parts[len(parts)-1] != "_" {
+						ev = "return " + strings.Join(parts, ",")
+					}
+				case *ast.IncDecStmt:
+					if isFieldOf(info, x.X, sizeField) {
+						ev = "size" + x.Tok.String()
+					}
+				case *ast.AssignStmt:
+					if len(x.Lhs) == 1 && len(x.Rhs) == 1 {
+						if c.isEmptyRefLit(x.Rhs[0]) {
+							ev = "unlink"
+						} else if sel, ok := ast.Unparen(x.Lhs[0]).(*ast.SelectorExpr); ok && sel.Sel.Name == "value" {
+							ev = "value store"
+						}
+					}
+				case *ast.ExprStmt:
+					if call, ok := x.X.(*ast.CallExpr); ok {
+						name := m.calleeName(call)
+						if strings.HasSuffix(name, ".deleteChild") || strings.HasSuffix(name, ".addChild") {
+							ev = "call " + name[strings.LastIndex(name, ".")+1:]
+						}
+					}
+				}
+				if ev != "" {
+					out[ev+" when "+label(b)]++
+				}
+			}
+		}
+		return out
+	}
+	for _, mn := range []string{"Delete", "Search", "Insert"} {
+		cu, ru := coll.Methods[mn], ref.Methods[mn]
+		if cu == nil || ru == nil {
+			continue
+		}
+		a, b := outcomes(coll, cu), outcomes(ref, ru)
+		var onlyA, onlyB []string
+		negative := func(s string) bool {
+			return strings.HasPrefix(s, "return false") || strings.HasPrefix(s, "return _,false")
+		}
+		// effectful outcomes (and positive results): the same multiset of (outcome, conditions)
+		for s, n := range a {
+			if !negative(s) && b[s] < n {
+				onlyA = append(onlyA, fmt.Sprintf("%q ×%d", s, n-b[s]))
+			}
+		}
+		for s, n := range b {
+			if !negative(s) && a[s] < n {
+				onlyB = append(onlyB, fmt.Sprintf("%q ×%d", s, n-a[s]))
+			}
+		}
+		// "absent" answers: where they are given depends on the statement form (an early return,
+		// a break to a common exit, a guard folded into the loop header), so only the conditions
+		// themselves are compared – the conditions one copy answers "absent" under must be among
+		// those of the other copy, polarity included
+		negAtoms := func(x bagT) map[string]bool {
+			out := map[string]bool{}
+			for s := range x {
+				if !negative(s) {
+					continue
+				}
+				if i := strings.Index(s, " when "); i >= 0 {
+					for _, at := range strings.Split(s[i+6:], " & ") {
+						if at != "" {
+							out[at] = true
+						}
+					}
+				}
+			}
+			return out
+		}
+		na, nb := negAtoms(a), negAtoms(b)
+		var extraA, extraB []string
+		for at := range na {
+			if !nb[at] {
+				extraA = append(extraA, at)
+			}
+		}
+		for at := range nb {
+			if !na[at] {
+				extraB = append(extraB, at)
+			}
+		}
+		if len(extraA) > 0 && len(extraB) > 0 {
+			sort.Strings(extraA)
+			sort.Strings(extraB)
+			onlyA = append(onlyA, fmt.Sprintf("answers absent under %q", strings.Join(extraA, ", ")))
+			onlyB = append(onlyB, fmt.Sprintf("answers absent under %q", strings.Join(extraB, ", ")))
+		}
+		sort.Strings(onlyA)
+		sort.Strings(onlyB)
+		key := fmt.Sprintf("%s.%s has the same outcomes under the same conditions as %s.%s", coll.Name, mn, ref.Name, mn)
+		if len(onlyA) == 0 && len(onlyB) == 0 {
+			total := 0
+			for _, n := range a {
+				total += n
+			}
+			c.r.ok("R36", key, m.pos(cu.Decl.Pos()), fmt.Sprintf("%d outcomes (constant results, links, unlinks, size steps, value stores) are dominated by the same emptiness, tag, key-equality and position conditions in both copies", total), "C08", "C09", "C01")
+		} else {
+			c.r.bad("R36", key, m.pos(cu.Decl.Pos()), fmt.Sprintf("an outcome is reached under different conditions in the two copies – only in %s: %s; only in the template instantiation: %s", coll.File, joinShort(onlyA, 3), joinShort(onlyB, 3)), "C08", "C09", "C01")
+		}
+	}
 	for _, mn := range []string{"Delete", "Insert", "Search", "Minimum", "Maximum", "All", "Backward", "TopK", "BottomK", "Size"} {
 		cu, ru := coll.Methods[mn], ref.Methods[mn]
 		if cu == nil || ru == nil {
